@@ -219,12 +219,16 @@ class LRUCache(AllowanceCacheBackend):
     def __init__(self, **kwargs):
         self.maxsize = kwargs['maxsize']
         self._wrapped_func = None
+        self._generation = 0
 
     def wrap(self, func):
-        self._wrapped_func = lru_cache(self.maxsize)(func)
-        return self._wrapped_func
+        # Results are keyed by the generation they were requested in: a result that was being computed
+        # while the cache got invalidated is stored under the old generation and is never served again.
+        self._wrapped_func = lru_cache(self.maxsize)(lambda generation, *args: func(*args))
+        return lambda *args: self._wrapped_func(self._generation, *args)
 
     def invalidate(self):
+        self._generation += 1
         self._wrapped_func.cache_clear()
 
     def info(self):
